@@ -196,7 +196,7 @@ _expanded_cache = {}
 def expanded_text(root):
     """`cargo +nightly rustc --lib --no-default-features -- -Zunpretty=expanded` on a scratch copy of root (cached per process)."""
     import os, shutil, subprocess, tempfile
-    feats = sorted(f for f in FEATURES if f in ('parallel',))
+    feats = sorted(f for f in FEATURES if f in ('parallel', 'serde'))
     ck = (root, tuple(feats))
     if ck in _expanded_cache:
         return _expanded_cache[ck]
